@@ -279,11 +279,15 @@ class mapper(object):
             raise ValueError("memory location slc is not supported")
         elif loc._is_ptr:
             r = v
-            oldr = self.__map.get(loc, None)
-            if oldr is not None and oldr.size > r.size:
-                r = composer([r, oldr[r.size : oldr.size]])
             if k._is_mem:
                 endian = k.endian
+            oldr = self.__map.get(loc, None)
+            if oldr is not None and oldr.size > r.size:
+                # the bytes of the previous (wider) write that stay in place are
+                # read back from the map: a later write (or a possible alias) may
+                # have changed them; they follow r in memory whatever the byte order
+                rest = self.M(mem(loc, oldr.size - r.size, disp=r.length, endian=endian))
+                r = composer([r, rest] if endian == 1 else [rest, r])
             self._Mem_write(loc, r, endian)
             if conf.Cas.memtrace or not conf.Cas.noaliasing:
                 # if we assume that aliasing may exists, we
